@@ -15,6 +15,7 @@ theorems do not reach.
 import itertools
 import os
 import random
+import time
 
 import numpy as np
 
@@ -288,8 +289,218 @@ def impl_item(label, p, n, hs, cells, seed):
                      {'dir': 'dfc', 'p': p, 'n': n, 'cells': [cells[i]], 'impl': dvec[i]})
         return {**out, 'violations': mr.violations, 'hist': mr.hist}
     direct_checks(mr, label, p, n, hs, vec, cells, dvec)
+    out['evaluations'] += batch_order_checks(mr, label, p, n, hs, vec, cells, dvec, states)
     return {'vec': vec, 'dvec': dvec, 'states': states, 'evaluations': out['evaluations'],
             'violations': mr.violations, 'hist': mr.hist}
+
+
+def batch_order_checks(mr, label, p, n, hs, vec, cells, dvec, states):
+    """the vectorised entry points are row-wise maps: the value of a row may not depend on the
+    rows before it.  (a) every cell followed by the cell whose coordinates are the in-place
+    (transposed) state the scalar kernel leaves for it - the batch that exposes any reuse of a
+    previous row after it has been overwritten; (b) the exhaustive grids in several fixed orders
+    (they are already passed as ONE batch in lexicographic order by impl_item); (c) repeated and
+    reversed distances."""
+    nev = 0
+    if cells:
+        ds2, _ = U.dfc_scalar(p, states)
+        batch, expect = [], []
+        for c, st, d, d2 in zip(cells, states, dvec, ds2):
+            batch += [c, st]
+            expect += [d, d2]
+        got, untouched = U.dfc_vector(p, batch)
+        nev += len(batch)
+        mr.count('adversarial_rows', len(batch))
+        if got != expect or not untouched:
+            i = next((i for i in range(len(batch)) if got[i] != expect[i]), 0)
+            lo = max(0, i - 2)
+            mr.violation('batch-dependence:dfc',
+                         'distances_from_coordinates: the value of a row depends on the rows before it '
+                         '(cell followed by its in-place transposed state)',
+                         {'dir': 'dfc', 'p': p, 'n': n, 'cells': batch[lo:i + 1], 'batch_row': i - lo,
+                          'vector': got[lo:i + 1], 'scalar': expect[lo:i + 1]})
+    if label == 'exhaustive' and cells:
+        idx = list(range(len(cells)))
+        orders = {'reverse-lexicographic': idx[::-1],
+                  'last-coordinate-slowest': sorted(idx, key=lambda i: cells[i][::-1]),
+                  'along-the-curve': sorted(idx, key=lambda i: dvec[i]),
+                  'against-the-curve': sorted(idx, key=lambda i: -dvec[i]),
+                  'boustrophedon': sorted(idx, key=lambda i: (cells[i][0], cells[i][1:] if cells[i][0] % 2 == 0
+                                                              else [-x for x in cells[i][1:]]))}
+        for name, order in orders.items():
+            got, _ = U.dfc_vector(p, [cells[i] for i in order])
+            nev += len(order)
+            if got != [dvec[i] for i in order]:
+                k = next(k for k in range(len(order)) if got[k] != dvec[order[k]])
+                lo = max(0, k - 2)
+                mr.violation('batch-dependence:dfc',
+                             f'distances_from_coordinates: a row changes its value when the grid is passed '
+                             f'in {name} order',
+                             {'dir': 'dfc', 'p': p, 'n': n, 'cells': [cells[i] for i in order[lo:k + 1]],
+                              'batch_row': k - lo, 'vector': got[lo:k + 1],
+                              'scalar': [dvec[i] for i in order[lo:k + 1]]})
+                break
+    if hs:
+        sub = hs if len(hs) <= 4096 else hs[:4096]
+        v0 = vec[:len(sub)]
+        batch = [h for h in sub for _ in (0, 1)] + sub[::-1]
+        expect = [c for c in v0 for _ in (0, 1)] + v0[::-1]
+        got = U.cfd_vector(p, n, batch)
+        nev += len(batch)
+        if got != expect:
+            i = next(i for i in range(len(batch)) if got[i] != expect[i])
+            lo = max(0, i - 2)
+            mr.violation('batch-dependence:cfd',
+                         'coordinates_from_distances: the value of a row depends on the rows before it',
+                         {'dir': 'cfd', 'p': p, 'n': n, 'hs': batch[lo:i + 1], 'batch_row': i - lo,
+                          'vector': got[lo:i + 1], 'scalar': expect[lo:i + 1]})
+    return nev
+
+
+# --------------------------------------------------------------------------
+# dtypes and memory layouts of the vectorised entry points
+# --------------------------------------------------------------------------
+DTYPES = ['int8', 'uint8', 'int16', 'uint16', 'int32', 'uint32', 'int64']
+LAYOUTS = ['C', 'F', 'colview', 'rowview', 'negstride', 'list']
+# (p, n) per coordinate dtype: the coordinates fit, n*p exceeds the dtype's bits where possible
+DFC_ORDERS = {'int8': [(7, 2), (7, 3), (5, 2), (7, 8), (3, 2)],
+              'uint8': [(8, 2), (8, 3), (5, 2), (8, 7)],
+              'int16': [(15, 2), (15, 4), (9, 2), (8, 3)],
+              'uint16': [(16, 2), (16, 3), (9, 2), (11, 2)],
+              'int32': [(31, 2), (16, 2), (17, 2), (20, 3), (11, 3), (15, 2)],
+              'uint32': [(31, 2), (16, 2), (17, 2), (20, 3), (12, 3)],
+              'int64': [(31, 2), (20, 3), (10, 2), (62, 1)]}
+# (p, n) per distance dtype: 2^(np) - 1 fits
+CFD_ORDERS = {'int8': [(7, 1), (3, 2), (2, 3)], 'uint8': [(8, 1), (4, 2), (2, 4)],
+              'int16': [(15, 1), (7, 2), (5, 3)], 'uint16': [(16, 1), (8, 2), (4, 4)],
+              'int32': [(31, 1), (15, 2), (10, 3)], 'uint32': [(32, 1), (16, 2), (8, 4)],
+              'int64': [(62, 1), (31, 2), (20, 3)]}
+
+
+def lay_out(a, layout):
+    """the same logical array in another memory layout / container"""
+    if layout == 'C':
+        return np.ascontiguousarray(a)
+    if layout == 'F':
+        return np.asfortranarray(a)
+    if layout == 'colview':
+        if a.ndim == 1:
+            big = np.zeros(2 * a.shape[0], a.dtype)
+            big[::2] = a
+            return big[::2]
+        big = np.zeros((a.shape[0], 2 * a.shape[1]), a.dtype)
+        big[:, ::2] = a
+        return big[:, ::2]
+    if layout == 'rowview':
+        big = np.zeros((2 * a.shape[0],) + a.shape[1:], a.dtype)
+        big[1::2] = a
+        return big[1::2]
+    if layout == 'negstride':
+        return a[::-1].copy()[::-1]
+    if layout == 'list':
+        return a.tolist()
+    raise ValueError(layout)
+
+
+def call_vectorised(direction, p, n, dtype, layout, inputs):
+    """one call of a vectorised entry point on inputs of a given dtype / layout:
+    (values or None, error or None, result dtype, argument unchanged)"""
+    H = U.hilbert_mod()
+    a = np.array(inputs, dtype=dtype)
+    obj = lay_out(a, layout)
+    snap = np.array(obj).copy()
+    try:
+        r = H.distances_from_coordinates(p, obj) if direction == 'dfc' \
+            else H.coordinates_from_distances(p, n, obj)
+    except Exception as e:
+        return None, type(e).__name__, None, True
+    r = np.asarray(r)
+    same = bool((np.array(obj) == snap).all())
+    return [[int(x) for x in row] for row in r.tolist()] if r.ndim == 2 else [int(x) for x in r.tolist()], \
+        None, str(r.dtype), same
+
+
+def impl_dtypes(seed, dtypes=None, per=48):
+    rng = random.Random(seed)
+    mr = MiniRep(seed)
+    cfd_out, dfc_out, nev = [], [], 0
+    H = U.hilbert_mod()
+    for dt in (dtypes or DTYPES):
+        for p, n in DFC_ORDERS[dt]:
+            if not guard(p, n):
+                continue
+            side, top = 1 << p, 1 << (n * p)
+            cells = interesting_cells(rng, p, n, per)[:per * 3]
+            dsca, states = U.dfc_scalar(p, cells)
+            # the transposed states right after their cells (see batch_order_checks)
+            cells = cells + [x for c, s in zip(cells[:16], states[:16]) for x in (c, s)]
+            dsca, _ = U.dfc_scalar(p, cells)
+            dfc_out.append((p, n, cells, dsca))
+            for layout in LAYOUTS:
+                if layout == 'list' and dt != 'int64':
+                    continue          # a list of Python ints has no dtype: once is enough
+                got, err, rdt, same = call_vectorised('dfc', p, n, dt, layout, cells)
+                nev += len(cells)
+                mr.count(f'dtype:dfc:{dt}:{layout}')
+                meta = {'dir': 'dtype', 'entry': 'dfc', 'p': p, 'n': n, 'dtype': dt, 'layout': layout}
+                if layout == 'list' and err == 'TypingError':
+                    mr.count('dfc_list_of_lists_not_accepted(TypingError)')   # the tree's behaviour today
+                    continue
+                if err is not None:
+                    mr.violation(f'dtype-raises:dfc:{err}',
+                                 f'distances_from_coordinates raised {err} for {dt} / {layout} input',
+                                 {**meta, 'cells': cells[:20]})
+                    continue
+                ok_dtype = rdt is not None and np.issubdtype(np.dtype(rdt), np.integer) \
+                    and np.iinfo(np.dtype(rdt)).max >= top - 1
+                if got != dsca or not ok_dtype or not same:
+                    i = next((i for i in range(len(cells)) if got[i] != dsca[i]), 0)
+                    mr.violation('vectorised-dtype:dfc',
+                                 f'distances_from_coordinates on {dt} coordinates ({layout}): '
+                                 + ('differs from the scalar entry point / wraps' if got != dsca else
+                                    f'result dtype {rdt} cannot hold 2^(np)-1' if not ok_dtype else
+                                    'modified its argument'),
+                                 {**meta, 'cells': [cells[i]], 'vector': got[i], 'scalar': dsca[i],
+                                  'result_dtype': rdt})
+                    break
+            # one row given as a 1-d array
+            got, err, rdt, same = call_vectorised('dfc', p, n, dt, 'C', cells[0])
+            if err is not None or got != [dsca[0]]:
+                mr.violation('vectorised-dtype:dfc', f'distances_from_coordinates on a 1-d {dt} row differs '
+                                                      'from the scalar entry point',
+                             {'dir': 'dtype', 'entry': 'dfc', 'p': p, 'n': n, 'dtype': dt, 'layout': 'C',
+                              'cells': [cells[0]], 'vector': got if err is None else err, 'scalar': dsca[0]})
+        for p, n in CFD_ORDERS[dt]:
+            if not guard(p, n):
+                continue
+            top = 1 << (n * p)
+            hs = [h for h in interesting_distances(rng, p, n, per)[:per * 3] if h <= np.iinfo(dt).max]
+            hs = hs + [h for h in hs[:16] for _ in (0, 1)]
+            sca = U.cfd_scalar(p, n, hs)
+            cfd_out.append((p, n, hs, sca))
+            for layout in ('C', 'colview', 'rowview', 'negstride', 'list'):
+                if layout == 'list' and dt != 'int64':
+                    continue
+                got, err, rdt, same = call_vectorised('cfd', p, n, dt, layout, hs)
+                nev += len(hs)
+                mr.count(f'dtype:cfd:{dt}:{layout}')
+                meta = {'dir': 'dtype', 'entry': 'cfd', 'p': p, 'n': n, 'dtype': dt, 'layout': layout}
+                if err is not None:
+                    mr.violation(f'dtype-raises:cfd:{err}',
+                                 f'coordinates_from_distances raised {err} for {dt} / {layout} input',
+                                 {**meta, 'hs': hs[:20]})
+                    continue
+                ok_dtype = np.issubdtype(np.dtype(rdt), np.integer) and np.iinfo(np.dtype(rdt)).max >= (1 << p) - 1
+                if got != sca or not ok_dtype or not same:
+                    i = next((i for i in range(len(hs)) if got[i] != sca[i]), 0)
+                    mr.violation('vectorised-dtype:cfd',
+                                 f'coordinates_from_distances on {dt} distances ({layout}) differs from the '
+                                 f'scalar entry point, or its result dtype {rdt} cannot hold 2^p-1',
+                                 {**meta, 'hs': [hs[i]], 'vector': got[i], 'scalar': sca[i],
+                                  'result_dtype': rdt})
+                    break
+    return {'cfd': cfd_out, 'dfc': dfc_out, 'violations': mr.violations, 'hist': mr.hist,
+            'evaluations': nev}
 
 
 def impl_samples():
@@ -298,7 +509,8 @@ def impl_samples():
              'coordinate': U.cfd_vector(31, 2, [(1 << 62) - 1])[0]}]
 
 
-IMPL_TABLE = {'impl_item': impl_item, 'impl_samples': impl_samples}
+IMPL_TABLE = {'impl_item': impl_item, 'impl_samples': impl_samples, 'impl_dtypes': impl_dtypes,
+              'call_vectorised': call_vectorised}
 
 
 def merge(rep, out):
@@ -316,10 +528,17 @@ def run(rep):
                 '(n = 2, 3) and p <= 12 (n = 1); seeded samples (range ends, powers of two +-1, quadrant '
                 'boundaries, sparse/dense bit patterns, uniform) for every p up to 31 (n=2), 20 (n=3), '
                 '62 (n=1) and for n in {4,5,6,7,10,15,31,62}; each input goes through the scalar and the '
-                'vectorised entry point; batches of %d inputs are one kernel-evaluated case; '
+                'vectorised entry point; the vectorised entry points additionally get every grid in six fixed '
+                'orders, every cell followed by its in-place transposed state, repeated / reversed distances, '
+                'and inputs of dtype int8..uint32, int64 in C / F / strided / negative-stride layouts and as '
+                'Python lists at orders where n*p exceeds the dtype; batches of %d inputs are one kernel-evaluated case; '
                 'non-trivial = a distinct (direction, p, n, input) with p >= 2; '
                 'evaluations = inputs x entry points' % BATCH)
     runner = U.ImplRunner(IMPL_TABLE)
+    # the dtype / layout sweep (mostly JIT compilation) runs in a second child alongside the rest
+    runner_dt = U.ImplRunner(IMPL_TABLE)
+    t_dt = time.time()
+    runner_dt.submit('impl_dtypes', (rep.seed, None, 48 if tier == 'quick' else 400))
     cfd_cases, cfd_res, cfd_meta = [], [], []
     dfc_cases, dfc_res, dfc_meta = [], [], []
     for label, p, n, hs, cells in plan(rep, tier):
@@ -368,36 +587,64 @@ def run(rep):
                       {'dir': 'hang', 'p': 31, 'n': 2, 'hs': [37, (1 << 62) - 1], 'cells': []})
     runner.close()
 
-    # distance -> coordinate against the model
-    bad = C.coq_mismatches(IMPORTS, CFD_FN, CFD_TY, CFD_RES, cfd_cases, cfd_res, shard=24)
-    for i in bad[:6]:
-        p, n, hs, vec = cfd_meta[i]
-        j = locate_cfd(p, n, hs, vec)
-        model = C.coq_eval(IMPORTS, f'coordinate_from_distance {p} {n} {hs[j]}%N')
-        rep.violation('cfd-differs', 'coordinate_from_distance differs from the proven model',
-                      {'dir': 'cfd', 'p': p, 'n': n, 'hs': [hs[j]], 'impl': vec[j], 'model': model})
-    # coordinate -> distance (+ in-place state of the scalar entry) against the model
-    with_state = [i for i in range(len(dfc_cases)) if dfc_res[i][1] is not None]
-    without = [i for i in range(len(dfc_cases)) if dfc_res[i][1] is None]
-    bad = [with_state[k] for k in C.coq_mismatches(
-        IMPORTS, DFC_FN, DFC_TY, DFC_RES, [dfc_cases[i] for i in with_state],
-        [dfc_res[i] for i in with_state], shard=24)]
-    fn2 = "fun c => let '(p, cs) := c in distances_from_coordinates p cs"
-    bad += [without[k] for k in C.coq_mismatches(
-        IMPORTS, fn2, DFC_TY, 'list N', [dfc_cases[i] for i in without],
-        [dfc_res[i][0] for i in without], shard=24)]
-    for i in sorted(bad)[:6]:
-        p, n, cells, dvec, st = dfc_meta[i]
-        j, which = locate_dfc(p, cells, dvec, st)
-        cterm = C.coq(U.nlist(cells[j]))
-        model = C.coq_eval(IMPORTS, f'(distance_from_coordinate {p} {cterm}, '
-                                    f'distance_from_coordinate_state {p} {cterm})')
-        rep.violation('dfc-differs' if which == 'distance' else 'dfc-state-differs',
-                      'distance_from_coordinate differs from the proven model' if which == 'distance'
-                      else 'the in-place state left by distance_from_coordinate differs from the model',
-                      {'dir': 'dfc', 'p': p, 'n': n, 'cells': [cells[j]], 'impl': dvec[j],
-                       'impl_state': st[j] if st else None, 'model': model})
-    rep.extra['kernel_cases'] = len(cfd_cases) + len(dfc_cases)
+    def compare():
+        # distance -> coordinate against the model
+        bad = C.coq_mismatches(IMPORTS, CFD_FN, CFD_TY, CFD_RES, cfd_cases, cfd_res, shard=24)
+        for i in bad[:6]:
+            p, n, hs, vec = cfd_meta[i]
+            j = locate_cfd(p, n, hs, vec)
+            model = C.coq_eval(IMPORTS, f'coordinate_from_distance {p} {n} {hs[j]}%N')
+            rep.violation('cfd-differs', 'coordinate_from_distance differs from the proven model',
+                          {'dir': 'cfd', 'p': p, 'n': n, 'hs': [hs[j]], 'impl': vec[j], 'model': model})
+        # coordinate -> distance (+ in-place state of the scalar entry) against the model
+        with_state = [i for i in range(len(dfc_cases)) if dfc_res[i][1] is not None]
+        without = [i for i in range(len(dfc_cases)) if dfc_res[i][1] is None]
+        bad = [with_state[k] for k in C.coq_mismatches(
+            IMPORTS, DFC_FN, DFC_TY, DFC_RES, [dfc_cases[i] for i in with_state],
+            [dfc_res[i] for i in with_state], shard=24)]
+        fn2 = "fun c => let '(p, cs) := c in distances_from_coordinates p cs"
+        bad += [without[k] for k in C.coq_mismatches(
+            IMPORTS, fn2, DFC_TY, 'list N', [dfc_cases[i] for i in without],
+            [dfc_res[i][0] for i in without], shard=24)]
+        for i in sorted(bad)[:6]:
+            p, n, cells, dvec, st = dfc_meta[i]
+            j, which = locate_dfc(p, cells, dvec, st)
+            cterm = C.coq(U.nlist(cells[j]))
+            model = C.coq_eval(IMPORTS, f'(distance_from_coordinate {p} {cterm}, '
+                                        f'distance_from_coordinate_state {p} {cterm})')
+            rep.violation('dfc-differs' if which == 'distance' else 'dfc-state-differs',
+                          'distance_from_coordinate differs from the proven model' if which == 'distance'
+                          else 'the in-place state left by distance_from_coordinate differs from the model',
+                          {'dir': 'dfc', 'p': p, 'n': n, 'cells': [cells[j]], 'impl': dvec[j],
+                           'impl_state': st[j] if st else None, 'model': model})
+
+    compare()
+    ncases = len(cfd_cases) + len(dfc_cases)
+    cfd_cases, cfd_res, cfd_meta = [], [], []
+    dfc_cases, dfc_res, dfc_meta = [], [], []
+    # dtypes / memory layouts of the vectorised entry points
+    if True:
+        try:
+            out = runner_dt.collect(max(5.0, deadline(200000) - (time.time() - t_dt)))
+            merge(rep, out)
+            for p, n, hs, sca in out['cfd']:
+                cfd_cases.append((C.Nat(p), C.Nat(n), U.nlist(hs)))
+                cfd_res.append(U.nrows(sca))
+                cfd_meta.append((p, n, hs, sca))
+            for p, n, cells, dsca in out['dfc']:
+                dfc_cases.append((C.Nat(p), U.nrows(cells)))
+                dfc_res.append((U.nlist(dsca), None))
+                dfc_meta.append((p, n, cells, dsca, None))
+        except U.ImplHang as e:
+            rep.violation('impl-hangs', f'the vectorised entry points did not return on the dtype sweep ({e})',
+                          {'dir': 'hang', 'p': 7, 'n': 2, 'hs': [], 'cells': [], 'label': 'dtypes'})
+        except U.ImplCrash as e:
+            rep.violation('impl-crashes', f'the dtype sweep failed: {e}',
+                          {'dir': 'hang', 'p': 7, 'n': 2, 'hs': [], 'cells': [], 'label': 'dtypes'})
+        runner_dt.close()
+    compare()
+    ncases += len(cfd_cases) + len(dfc_cases)
+    rep.extra['kernel_cases'] = ncases
     if tier != 'quick':
         kernel_sweep(rep)
 
@@ -450,6 +697,24 @@ def replay(rep, rp):
     hs = [int(h) for h in rp.get('hs', [])]
     cells = [[int(x) for x in c] for c in rp.get('cells', [])]
     runner = U.ImplRunner(IMPL_TABLE)
+    if rp.get('dir') == 'dtype':
+        entry, dt, layout = rp['entry'], rp['dtype'], rp['layout']
+        inputs = cells if entry == 'dfc' else hs
+        try:
+            got, err, rdt, same = runner.call('call_vectorised', (entry, p, n, dt, layout, inputs), deadline(10))
+            ref = runner.call('call_vectorised', (entry, p, n, 'int64', 'C', inputs), deadline(10))[0]
+        except (U.ImplHang, U.ImplCrash) as e:
+            print('the implementation does not return / failed:', e)
+            return False
+        finally:
+            runner.close()
+        print(f'{entry} on {dt}/{layout}:', got if err is None else 'raised ' + err, 'dtype', rdt,
+              '| int64/C:', ref, '| argument unchanged:', same)
+        top = (1 << (n * p)) if entry == 'dfc' else (1 << p)
+        ok = err is None and got == ref and same and np.iinfo(np.dtype(rdt)).max >= top - 1
+        # fall through to the ordinary checks on the same inputs
+        rp = {**rp, 'dir': entry}
+        return ok and replay(rep, rp)
     try:
         out = runner.call('impl_item', (rp.get('label', 'sample'), p, n, hs, cells, 1),
                           deadline(len(hs) + len(cells)))
